@@ -6,8 +6,9 @@ arms, guards and helper predicates) are evaluated for every ordered pair of Data
 such as is_numeric are evaluated on their own bodies; guards on payloads are unknown); cast support is
 'an implementation arm is reachable once the dispatch is resolved for that pair'.  A violation is a
 pair with can_cast definitely true and cast definitely routed to the unsupported-error arm."""
+import re
 from . import facts as factsmod, dtm, flow
-from .mirlib import Body
+from .mirlib import Body, callee, op_local
 
 DT = "call:Array::data_type"
 # one level of payload refinement: constructors whose unit decides which arm is taken
@@ -26,6 +27,82 @@ def refined_universe(F, variants):
         else:
             out.append((n, n, d, None))
     return out
+
+
+# Utf8/LargeUtf8 and Utf8View entry points of the same text cast: they must hand the same work to the same generic implementation
+STRING_VIEW_SIBLINGS = [("cast_string_to_timestamp", "cast_view_to_timestamp"), ("cast_string_to_interval", "cast_view_to_interval"),
+                        ("cast_string_to_year_month_interval", "cast_view_to_year_month_interval"),
+                        ("cast_string_to_day_time_interval", "cast_view_to_day_time_interval"),
+                        ("cast_string_to_month_day_nano_interval", "cast_view_to_month_day_nano_interval"),
+                        ("parse_string", "parse_string_view"), ("cast_utf8_to_boolean", "cast_utf8view_to_boolean")]
+_CONTAINER_ARG = re.compile(r"Iter|Offset|^O$|StringViewArray|GenericStringArray|GenericByteArray|GenericByteViewArray|^'")
+
+
+def _delegations(F, fid):
+    fn = F.resolve("arrow_cast::cast::string::" + fid)
+    if fn is None:
+        return None, None
+    b = Body(fn)
+    out = set()
+    for bb, t in b.calls():
+        n = callee(t) or ""
+        if not n.startswith("arrow_cast::"):
+            continue
+        ga = [re.sub(r"\{closure@[^}]*\}", "{closure}", g) for g in ((t.get("f") or {}).get("ga") or []) if not _CONTAINER_ARG.search(g)]
+        out.add((n.split("::")[-1].replace("_view_", "_string_").replace("utf8view", "utf8"), tuple(ga)))
+    return fn, out
+
+
+def run_siblings(ck, F):
+    ck.rule("C13.string-view-sibling-agreement", "the Utf8/LargeUtf8 entry point and the Utf8View entry point of the same text cast delegate to the same generic "
+            "implementations with the same type arguments (apart from the container / iterator type): e.g. both instantiate the timestamp parser for the "
+            "target time zone AND for Utc", floor=len(STRING_VIEW_SIBLINGS))
+    for a, v in STRING_VIEW_SIBLINGS:
+        fa, sa = _delegations(F, a)
+        fv, sv = _delegations(F, v)
+        key = "%s~%s" % (a, v)
+        if fa is None or fv is None:
+            ck.missing_anchor("arrow_cast::cast::string::" + (a if fa is None else v), "C13.string-view-sibling-agreement")
+            continue
+        if sa == sv:
+            ck.ok("C13.string-view-sibling-agreement", key, "both delegate to %s" % sorted(sa))
+        else:
+            ck.bad("C13.string-view-sibling-agreement", key, "%s and %s no longer delegate alike: only the string path has %s, only the view path has %s: the same text casts "
+                   "differently depending on the string container" % (a, v, sorted(sa - sv), sorted(sv - sa)), "%s:%s" % (fv["file"], fv["line"]))
+
+
+_W = {"i8": 8, "u8": 8, "i16": 16, "u16": 16, "i32": 32, "u32": 32, "i64": 64, "u64": 64, "i128": 128, "u128": 128, "isize": 64, "usize": 64}
+
+
+def run_narrowing(ck, F):
+    ck.rule("C13.checked-narrowing", "the DecimalCast conversions (to_i32 / to_i64 / to_i128 / to_i256 / from_decimal / from_f64: `Option` means unrepresentable) contain no "
+            "narrowing `as` between integer types and no float-to-int `as`: such a cast wraps or saturates instead of reporting None", floor=20)
+    c = F.crate("arrow_cast")
+    n = 0
+    for fn in c.fns:
+        if "mir" not in fn:
+            continue
+        top = fn
+        while top.get("parent"):
+            top = F.fn(top["parent"], required=False) or {}
+        if "DecimalCast" not in (top.get("id") or "") and "DecimalCast" not in (top.get("impl_trait") or ""):
+            continue
+        n += 1
+        b = Body(fn)
+        bad = False
+        for bl in range(b.n):
+            for s in b.stmts(bl):
+                if s[0] == "a" and s[2][0] == "cast":
+                    rv = s[2]
+                    l = op_local(rv[2])
+                    src = b.locals[l] if l is not None else None
+                    dst = rv[3] if len(rv) > 3 else None
+                    if (src in _W and dst in _W and _W[src] > _W[dst]) or (rv[1] == "FloatToInt"):
+                        bad = True
+                        ck.bad("C13.checked-narrowing", "%s %s->%s" % (fn["id"], src, dst), "%s: `as` cast %s -> %s in a conversion whose contract is to return None for an "
+                               "unrepresentable value: out-of-range values wrap / saturate silently" % (fn["id"], src, dst), b.loc(bl))
+        if not bad:
+            ck.ok("C13.checked-narrowing", fn["id"], "no narrowing `as`")
 
 
 def run(ck, tier):
@@ -75,6 +152,8 @@ def run(ck, tier):
                 stats["can_unknown"] += 1
     for k, v in stats.items():
         ck.count(k, v)
+    run_siblings(ck, F)
+    run_narrowing(ck, F)
     ck.note("Decided: the inclusion can_cast => cast-supported on the full constructor grid (%d pairs, %d definitely castable). "
             "Not decided: value preservation, strict/safe duality, text round trips, pairs whose castability depends on payloads (%d)."
             % (stats["pairs"], stats["can_true"], stats["can_unknown"]))
